@@ -424,4 +424,77 @@ theorem c14_publish_before_commit :
     Gen.C14.publishFinal = ["renameNoOverwrite", "snapshotFsyncDir"] := by
   refine ⟨by decide, by decide, by decide, rfl, rfl, rfl⟩
 
+
+
+theorem validRun_take (m : RaftStore) (ops : List Op) (k : Nat) (h : validRun m ops = true) :
+    validRun m (ops.take k) = true := by
+  induction ops generalizing m k with
+  | nil => simp [validRun]
+  | cons op ops ih =>
+    cases k with
+    | zero => simp [validRun]
+    | succ k =>
+      simp only [validRun, Bool.and_eq_true] at h
+      simp only [List.take_succ_cons, validRun, Bool.and_eq_true]
+      exact ⟨h.1, ih (stepM m op) k h.2⟩
+
+/-- **every_prefix_refines**: along any Raft-valid history, after EVERY operation (not only at
+    the end) the whole read API of the Pebble store equals the reference storage's — the
+    statement behind the per-step dump comparison of the differential run. -/
+theorem c14_every_prefix_refines (ops : List Op) (hv : validRun {} ops = true) (k : Nat) :
+    (runP {} (ops.take k)).reads.2 = (runM {} (ops.take k)).reads :=
+  c14_pebble_refines_reference (ops.take k) (validRun_take {} ops k hv)
+
+/-- drop the writer cache (Close/Open, or a process kill after the last completed write)
+    in front of every operation whose flag is set, and optionally at the end -/
+def withReopens : List Op → List Bool → List Op
+  | [], g :: _ => if g then [.reopen] else []
+  | [], [] => []
+  | op :: ops, [] => op :: withReopens ops []
+  | op :: ops, g :: gs => if g then .reopen :: op :: withReopens ops gs else op :: withReopens ops gs
+
+theorem stepM_reopen (m : RaftStore) : stepM m .reopen = m := rfl
+
+theorem withReopens_M (m : RaftStore) (ops : List Op) (gs : List Bool) :
+    runM m (withReopens ops gs) = runM m ops ∧ validRun m (withReopens ops gs) = validRun m ops := by
+  induction ops generalizing m gs with
+  | nil =>
+    cases gs with
+    | nil => exact ⟨rfl, rfl⟩
+    | cons g gs => cases g <;> simp [withReopens, runM, validRun, validOp, stepM_reopen]
+  | cons op ops ih =>
+    cases gs with
+    | nil =>
+      have := ih (stepM m op) []
+      simp only [withReopens, runM, List.foldl_cons, validRun] at this ⊢
+      exact ⟨this.1, by rw [this.2]⟩
+    | cons g gs =>
+      have := ih (stepM m op) gs
+      cases g with
+      | true =>
+        simp only [withReopens, if_true, runM, List.foldl_cons, validRun, validOp, stepM_reopen, Bool.true_and] at this ⊢
+        exact ⟨this.1, by rw [this.2]⟩
+      | false =>
+        simp only [withReopens, Bool.false_eq_true, if_false, runM, List.foldl_cons, validRun] at this ⊢
+        exact ⟨this.1, by rw [this.2]⟩
+
+/-- **reopen_anywhere_invisible**: take any Raft-valid history and close/reopen the store (or
+    kill the process) between ANY of its operations, any number of them: every answer of the
+    read API at the end is the same as without any reopen, and equals the reference's — the
+    op-sequence lift of `c14_cache_refines` over all interleavings of saves and restarts. -/
+theorem c14_reopen_anywhere_invisible (ops : List Op) (hv : validRun {} ops = true) (gs : List Bool) :
+    (runP {} (withReopens ops gs)).reads.2 = (runP {} ops).reads.2 ∧
+    (runP {} (withReopens ops gs)).reads.2 = (runM {} ops).reads := by
+  have hM := withReopens_M {} ops gs
+  have hv' : validRun {} (withReopens ops gs) = true := by rw [hM.2]; exact hv
+  have h1 := c14_pebble_refines_reference (withReopens ops gs) hv'
+  have h2 := c14_pebble_refines_reference ops hv
+  rw [hM.1] at h1
+  exact ⟨by rw [h1, h2], h1⟩
+
+example : withReopens [.mark 1, .cmark 2] [true, false, true] = [.reopen, .mark 1, .cmark 2, .reopen] := rfl
+
+
+example : validRun {} (withReopens [.save none none [⟨1, 1, .normal [7]⟩], .mark 1] [true, true, true]) = true := by decide
+
 end WK.C14
